@@ -133,7 +133,7 @@ def same_stack(a, b):
 # -- histories ---------------------------------------------------------------------------------
 
 HD = [{"X-A": "1"}, {"x-a": "2"}, {"X-B": 3, "User-Agent": "ua"}, {"X-A": 1}, {"X-A": True}]  # 1 == True, yet str() differs
-EVENTS = ["E0", "E1", "E2", "E3", "E4", "L", "X", "C", "N", "B"]
+EVENTS = ["E0", "E1", "E2", "E3", "E4", "L", "X", "C", "N", "B", "M"]  # M: the application adds a name to the dictionary it pushed last, while inside the block
 
 
 class Boom(Exception):
@@ -149,7 +149,9 @@ def history_cases(tier):
         if len(prefix) >= depth:
             return
         for e in EVENTS:
-            if e in ("L", "X") and nest == 0:
+            if e in ("L", "X", "M") and nest == 0:
+                continue
+            if e == "M" and prefix[-1] == "M":
                 continue
             if e.startswith("E") and nest >= 3:
                 continue
@@ -173,19 +175,24 @@ def check_history(case):
         model = [HD[ctor] if ctor is not None else {}]
         cms = []
         snaps = []
+        pushed = []
         for step, e in enumerate(hist):
             try:
                 if e.startswith("E"):
-                    d = HD[int(e[1])]
+                    d = dict(HD[int(e[1])])
                     snaps.append(list(t.additional_headers))
                     cm = proxy._additional_headers(d)
                     cm.__enter__()
                     cms.append(cm)
-                    model.append(d)
+                    pushed.append(d)
+                    model.append(dict(d))  # the content at the time of the push; whether a later addition is sent is not judged, restoring is
+                elif e == "M":
+                    pushed[-1]["X-Mut"] = "m%d" % step
                 elif e in ("L", "X"):
                     cm = cms.pop()
                     before = snaps.pop()
                     model.pop()
+                    pushed.pop()
                     if e == "L":
                         cm.__exit__(None, None, None)
                     else:
